@@ -68,7 +68,9 @@ def _exec_impl(sc):
     import labrea.runtime as R
 
     types = {t: type(f"VerifReq{t}", (R.Request,), {}) for t in TYPES}   # fresh per scenario
-    if sc.get("lib"):
+    hier = [(t, list(ps)) for t, ps in sc.get("hier", [])]
+    lib_root = {t: t for t in LIB_TYPES}      # type id -> the library type it derives from (constructor arguments)
+    if sc.get("lib") or any(p in LIB_TYPES for _, ps in hier for p in ps):
         import logging as pylogging
 
         import labrea
@@ -101,8 +103,11 @@ def _exec_impl(sc):
                 self.records.append(record)
 
         def run_lib(t):
-            """which handler serves a request of library type t: a user handler answers its tag (an int);
-            the builtin default touches the probe backend / probe logger; the disabled handler does not"""
+            """which handler serves a request of library type t (or of a user SUBCLASS of one: same constructor,
+            a request type of its own): a user handler answers its tag (an int); the builtin default touches the
+            probe backend / probe logger; the disabled handler does not"""
+            cls = types[t]
+            t = lib_root[t]
             probe = Probe()
             touched = lambda: bool(probe.calls)     # noqa: E731
             if t == 6:
@@ -116,13 +121,13 @@ def _exec_impl(sc):
             try:
                 try:
                     if t == 3:
-                        res = C.CacheSetRequest(probe_ev, {}, "val", probe).run()
+                        res = cls(probe_ev, {}, "val", probe).run()
                     elif t == 4:
-                        res = C.CacheGetRequest(probe_ev, {}, probe).run()
+                        res = cls(probe_ev, {}, probe).run()
                     elif t == 5:
-                        res = C.CacheExistsRequest(probe_ev, {}, probe).run()
+                        res = cls(probe_ev, {}, probe).run()
                     else:
-                        res = L.LogRequest(pylogging.INFO, PROBE_LOGGER, "probe", {}).run()
+                        res = cls(pylogging.INFO, PROBE_LOGGER, "probe", {}).run()
                 except C.CacheGetFailure:
                     res = None
                 if type(res) is int:
@@ -133,6 +138,15 @@ def _exec_impl(sc):
                     logger.removeHandler(col)
                     logger.setLevel(old[0])
                     logger.propagate = old[1]
+
+    # request types related by INHERITANCE (sc["hier"]: [type id, [parent ids]] in definition order; a parent is
+    # a user type, an earlier type of the hierarchy or one of the library's own request types).  Each is a
+    # request type of its own: what is held / registered for a base or a derived class says nothing about it.
+    for t, ps in hier:
+        types[t] = type(f"VerifReq{t}", tuple(types[p] for p in ps), {})
+        roots = [lib_root[p] for p in ps if p in lib_root]
+        if roots:
+            lib_root[t] = roots[0]
 
     def mk(h):
         if h == FALSY:
@@ -207,7 +221,7 @@ def _exec_impl(sc):
             return "done" if R.handle_by_default(types[op[1]], fn) is None else "notnone"
         if k == "run":
             try:
-                if op[1] in LIB_TYPES:
+                if op[1] in lib_root:
                     return f"h{run_lib(op[1])}"
                 return f"h{types[op[1]]().run()}"
             except Exception as e:  # noqa: BLE001
@@ -546,14 +560,16 @@ def gen_random(rng, maxlen, tags=TAGS):
     return {"existing": existing, "pre": pre, "prog": prog}
 
 
-def gen_lib_random(rng, maxlen, tags=TAGS, helper_threads=False):
+def gen_lib_random(rng, maxlen, tags=TAGS, helper_threads=False, hier=None):
     """gen_random over the user types AND the library's own request types, with the library-provided
     derivers (labrea.cache.disabled(), labrea.logging.disabled()) and labrea.runtime.inherit next to
     Runtime() / runtime.handle / Runtime.handle.  The thread always has a runtime (inherit_run is
-    rendered as a plain request for the model).  No default is ever registered for a library type."""
+    rendered as a plain request for the model).  No default is ever registered for a library type.
+    With `hier` (gen_hierarchy) the request types of that inheritance hierarchy join the user types."""
+    TYPES = globals()["TYPES"] + tuple(t for t, _ in (hier or []))      # noqa: N806  (user types: defaults allowed)
     alltypes = TYPES + LIB_TYPES
     pre = []
-    if rng.random() < 0.3:
+    if rng.random() < (0.6 if hier else 0.3):
         pre = [[t, rng.choice(tags)] for t in TYPES if rng.random() < 0.6]
     n = rng.randint(3, maxlen)
     prog, bound, active = [], set(), []
@@ -607,10 +623,136 @@ def gen_lib_random(rng, maxlen, tags=TAGS, helper_threads=False):
         active.pop()
         prog.append([rng.choice(["exit", "exitexc"])])
     prog += audit_suffix(bound, alltypes)
+    extra = {"hier": hier} if hier else {}
     if helper_threads:
         prog += [["thread_run", t] for t in TYPES]
-        return {"existing": True, "lib": True, "pre": pre, "prog": prog, "oracle_only": True}
-    return {"existing": True, "lib": True, "pre": pre, "prog": prog}
+        return dict({"existing": True, "lib": True, "pre": pre, "prog": prog, "oracle_only": True}, **extra)
+    return dict({"existing": True, "lib": True, "pre": pre, "prog": prog}, **extra)
+
+
+HIER_IDS = (11, 12, 13, 14, 15, 16)
+
+
+def gen_hierarchy(rng):
+    """Request types related by inheritance: [type id, [parent ids]] in definition order.  Roots are a user type
+    or one of the library's own request types (a user `AuditRequest(LogRequest)`); shapes: a chain of depth 1-3,
+    two siblings, a diamond, a chain under a user type next to a chain under a library type."""
+    ids = list(HIER_IDS)
+    root = lambda: rng.choice(TYPES + LIB_TYPES + (6, 6))      # noqa: E731
+    shape = rng.choice(["chain", "chain", "siblings", "diamond", "two-chains", "mixed-bases"])
+    if shape == "chain":
+        r, out = root(), []
+        for i in range(rng.randint(1, 3)):
+            out.append([ids[i], [r if i == 0 else ids[i - 1]]])
+        return out
+    if shape == "siblings":
+        r = root()
+        return [[ids[0], [r]], [ids[1], [r]], [ids[2], [ids[rng.randrange(2)]]]][:rng.randint(2, 3)]
+    if shape == "diamond":
+        r = root()
+        if rng.random() < 0.5:          # the library / user type itself is the apex
+            return [[ids[0], [r]], [ids[1], [r]], [ids[2], [ids[0], ids[1]]]]
+        return [[ids[0], [r]], [ids[1], [ids[0]]], [ids[2], [ids[0]]], [ids[3], [ids[1], ids[2]]]]
+    if shape == "two-chains":
+        a, b = rng.choice(TYPES), rng.choice(LIB_TYPES)
+        return [[ids[0], [a]], [ids[1], [ids[0]]], [ids[2], [b]], [ids[3], [ids[2]]]][:rng.randint(3, 4)]
+    # a class deriving from a user request type AND a library request type
+    a, b = rng.choice(TYPES), rng.choice(LIB_TYPES)
+    return [[ids[0], [a, b]], [ids[1], [ids[0]]]][:rng.randint(1, 2)]
+
+
+def hier_related(hier):
+    """(ancestor, descendant) pairs, every distance, of the hierarchy (roots included)"""
+    parents = {t: list(ps) for t, ps in hier}
+    out = []
+    for t in parents:
+        seen, todo = [], list(parents[t])
+        while todo:
+            p = todo.pop()
+            if p not in seen:
+                seen.append(p)
+                todo += parents.get(p, [])
+        out += [(a, t) for a in seen]
+    return sorted(out)
+
+
+def gen_hier_directed(rng, tags=TAGS):
+    """Directed family over request types related by inheritance: one type of a related pair gets a handler of its
+    own (a default registered before the thread starts, a late default, a handler held by an enclosing block, by a
+    fresh Runtime(...)), then a runtime is DERIVED overriding the other type of the pair (runtime.handle /
+    Runtime.handle in pair and mapping form, current_runtime().handle, the library's own derivers when the
+    overridden type is the library's), entered, and every type is asked: the derived runtime holds the handlers of
+    the runtime it was derived from plus ONLY its overrides.  The runtime derived from is asked again afterwards."""
+    hier = gen_hierarchy(rng)
+    utypes = TYPES + tuple(t for t, _ in hier)
+    alltypes = utypes + LIB_TYPES
+    pairs = hier_related(hier)
+    existing = rng.random() < 0.7
+    pre, prog, bound = [], [], set()
+    nextvar = [0]
+
+    def fresh():
+        v = nextvar[0] % NVARS
+        nextvar[0] += 1
+        bound.add(v)
+        return v
+
+    def probe(k=None):
+        ts = list(alltypes)
+        rng.shuffle(ts)
+        hs = [t for t, _ in hier]
+        ops = [["run", t] for t in hs + ts[:rng.randint(2, 4)]]
+        if existing and rng.random() < 0.3:
+            ops.append(["inherit_run", rng.choice(hs)])
+        return ops if k is None else ops[:k]
+
+    for t in utypes:
+        if rng.random() < 0.4:
+            pre.append([t, rng.choice(tags)])
+    for _ in range(rng.randint(1, 3)):
+        anc, desc = rng.choice(pairs)
+        own, other = (desc, anc) if rng.random() < 0.7 else (anc, desc)     # `own` gets its handler first
+        opened = 0
+        how = rng.choice(["pre", "late-default", "block", "block", "fresh-runtime", "none"])
+        if own in LIB_TYPES and how in ("pre", "late-default"):
+            how = "block"
+        if how == "pre" and own not in [t for t, _ in pre]:
+            pre.append([own, rng.choice(tags)])
+        elif how == "late-default":
+            prog.append(["default", own, rng.choice(tags), rng.choice(["decorator", "function"])])
+        elif how == "block":
+            a = fresh()
+            prog += [["handle", a, [[own, rng.choice(tags)]], rng.choice(["pair", "map"])], ["enter", a]]
+            opened = 1
+        elif how == "fresh-runtime":
+            a = fresh()
+            prog += [["new", a, [[own, rng.choice(tags)]], "map"], ["enter", a]]
+            opened = 1
+        prog += probe(3)
+        v = fresh()
+        dk = rng.choice(["pair", "pair", "map", "map2", "cur-handle", "lib", "on-var"])
+        if dk == "lib" and other in (3, 4, 5):
+            prog.append(["lib", v, "cache"])
+        elif dk == "lib" and other == 6:
+            prog.append(["lib", v, "logging"])
+        elif dk == "map2":
+            third = rng.choice([t for t in alltypes if t not in (own, other)])
+            prog.append(["handle", v, [[other, rng.choice(tags)], [third, rng.choice(tags)]], "map"])
+        elif dk == "cur-handle":
+            c = NVARS + 1
+            prog += [["cur", c], ["handle_on", v, c, [[other, rng.choice(tags)]], rng.choice(["pair", "map"])]]
+        elif dk == "on-var" and len(bound) > 1:
+            prog.append(["handle_on", v, rng.choice(sorted(bound - {v})), [[other, rng.choice(tags)]], rng.choice(["pair", "map"])])
+        else:
+            prog.append(["handle", v, [[other, rng.choice(tags)]], "map" if dk == "map" else "pair"])
+        prog += [["enter", v]] + probe()
+        if rng.random() < 0.4:
+            prog.append(["default", rng.choice(utypes), rng.choice(tags), rng.choice(["decorator", "function"])])
+            prog += probe(3)
+        prog += [[rng.choice(["exit", "exit", "exitexc"])]] + probe(4)
+        prog += [[rng.choice(["exit", "exitexc"])] for _ in range(opened)]
+    prog += audit_suffix({v for v in bound if v < NVARS}, alltypes)
+    return {"existing": existing, "lib": True, "pre": pre, "prog": prog, "hier": hier}
 
 
 def gen_repeat_derive(rng, tags=TAGS):
@@ -918,7 +1060,8 @@ def eval_model(ctx, streams, budget=2000):
         longest = max(len(streams[i][1]["prog"]) for i in idx)
         shard = max(5, budget // max(1, longest))
         tag = "".join(ch if ch.isalnum() else "_" for ch in name)
-        lines = ctx.coq_eval(f"Cases_C14_{tag}", REQUIRES, PRELUDE, [coq_scenario(streams[i][1]) for i in idx], shard=shard)
+        lines = ctx.coq_eval(f"Cases_C14_{tag}", REQUIRES, PRELUDE, [coq_scenario(streams[i][1]) for i in idx], shard=shard,
+                             **({} if ctx.quick else {"jobs": 8}))     # (thorough: at most 8 coqc at a time, ~0.45 GB each)
         for i, l in zip(idx, lines):
             out[i] = l
     return out
@@ -960,6 +1103,17 @@ def run(ctx):
     # short-lived helper threads next to the history's own thread (oracle only: the model has one thread)
     for _ in range(n_lib // 2):
         streams.append(("helper-threads", gen_lib_random(rng, min(maxlen, 25), helper_threads=True)))
+    # (drawn after every earlier stream: those stay what they were for a given seed)
+    # request types related by inheritance (user subclasses of user request types and of the library's own):
+    # distinct request types for the model (type ids), classes deriving from one another on the implementation
+    for _ in range(n_lib // 4):
+        streams.append(("type-hierarchy-directed", gen_hier_directed(rng)))
+    for _ in range(n_lib // 6):
+        streams.append(("type-hierarchy-random", gen_lib_random(rng, min(maxlen, 25), hier=gen_hierarchy(rng))))
+    for _ in range(n_lib // 12):
+        streams.append(("type-hierarchy-falsy", gen_hier_directed(rng, tags=TAGS + (FALSY,))))
+    for _ in range(n_lib // 12):
+        streams.append(("type-hierarchy-raising", dict(gen_hier_directed(rng), raising=True)))
     scenarios = [sc for _, sc in streams]
 
     obs = run_batch(scenarios[:n_main]) + run_batch(scenarios[n_main:], chunk=1)
@@ -1074,6 +1228,10 @@ def run(ctx):
             "a runtime 'holds' the defaults of the moment it was created (Runtime.__init__ snapshots them): re-registering a default "
             "for a type is not seen by runtimes created before (model, specification and oracle agree on this reading)",
             "the exhaustive stream is complete for its 14-symbol alphabet and length bound only; it is not the whole space",
+            "request types related by inheritance (type-hierarchy streams: chains of depth 1-3, siblings, diamonds, classes "
+            "deriving from a user type and a library type, user subclasses of LogRequest / Cache*Request) are DISTINCT request "
+            "types for the model, the specification and the oracle ('the handler it holds for the request's type', 'the default "
+            "registered for that type'): nothing held or registered for a base or derived class serves them",
         ],
         "trusted_base": [
             "CPython: `with` statement protocol, dict semantics, threading.current_thread() as the key of the per-thread tables",
